@@ -65,6 +65,8 @@ let str_fn = function
   | FAdd k -> "add(" ^ i k ^ ")" | FMul k -> "mul(" ^ i k ^ ")" | FThrow e -> "throw(" ^ i e ^ ")"
   | FThrowIf (x, e) -> "throwif(" ^ i x ^ "," ^ i e ^ ")"
 let str_out = function OVal v -> "value " ^ i v | OErr e -> "error " ^ i e | ODone -> "done"
+  | OValT v -> "value " ^ i v    (* the root receiver takes the value by reference *)
+  | OValK v -> "valueK " ^ i v   (* never produced *)
 let render = function
   | XT (TLeafStart (id, st, sp, q0, q1, sch, cx)) ->
     Printf.sprintf "start %d stopped=%s stoppable=%s q0=%s q1=%s sch=%d ctx=%d" (int_of_nat id) (b01 st) (b01 sp) (i q0) (i q1)
@@ -92,7 +94,7 @@ let script_of toks = List.map (fun t ->
       let id = int_of_string (String.sub t 1 (c - 1)) in
       let k = t.[c + 1] in
       let v = if String.length t > c + 2 then int_of_string (String.sub t (c + 2) (String.length t - c - 2)) else 0 in
-      EvLeaf (nat_of_int id, (match k with 'v' -> OVal (z_of_int v) | 'e' -> OErr (z_of_int v) | _ -> ODone), nat_of_int cx)) toks
+      EvLeaf (nat_of_int id, (match k with 'v' -> OVal (z_of_int v) | 't' -> OValT (z_of_int v) | 'e' -> OErr (z_of_int v) | _ -> ODone), nat_of_int cx)) toks
 let () =
   (* calc2 <prestop> <sexpr ...> | <script ...> *)
   Registry.register "calc2" (fun args ->
